@@ -40,7 +40,13 @@ def r05_1(ctx):
         ev_and, cap_and, _ = C01.run_core(ctx, "and_shapes")
         sel = {}
         for name, cap in (("or", cap_or), ("and", cap_and)):
-            sel[name] = {cap["jordans"][k].segments[j]._name for (k, j) in cap["indexs"]}
+            try:
+                sel[name] = {cap["jordans"][k].segments[j]._name for (k, j) in cap["indexs"]}
+            except (IndexError, TypeError):
+                out.bad(f"shape.FollowPath.{name}_shapes", "a selected (curve, segment) index does not address a piece of the "
+                                                           "curve list handed to follow_path",
+                        detail=f"indexes {list(cap['indexs'])[:8]} for {len(cap['jordans'])} curves")
+                return [o, out]
         for piece, st in sorted(status.items()):
             n = (piece in sel["or"]) + (piece in sel["and"])
             if st == "on":
